@@ -112,6 +112,10 @@ def fam_expr(tier, rng):
                             b.print(bin_(op, var("A", ta), var("B", tb))),
                             b.print(lit("$", "end"))]
                     out.append({"fam": "expr:%s/%s%s" % (op, ta, tb), "prog": prog(main)})
+    # results stored into a variable of every type (conversion on assignment, Overflow at the right statement)
+    import c06
+    for c in c06.fam_arith(tier, rng):
+        out.append({"fam": "exprstore:" + c["fam"].split(":", 1)[1], "prog": c["prog"]})
     # literal operands (types as the language assigns them), unary operators, strings
     for op in OPS:
         for x in SMALLV + [32767, 32768, 40000]:
